@@ -8,24 +8,24 @@ TB = ("Trusted: TLC, java.math.BigInteger behind the BigNat module overrides (cr
       "specifications reproduce known-answer vectors under TLC); reach is bounded by the generated programs.")
 TV = "TLA+ spec + TLC trace validation of recorded implementation traces"
 CLAIMS = {
- "C01": ("Every recorded public call of register-machine programs over all 16 prime-field/scalar types is a transition of the TLA+ field specification (TraceField.tla over PrimeField.tla), validated by TLC; programs cover all ordered pairs of boundary representations, unreduced intermediate results and seeded random programs.", TV),
+ "C01": ("Every recorded public call of register-machine programs over all prime-field/scalar types (16 of the crate plus 15 user-defined instances of the generic ModInt256 / define_gfgen! types) is a transition of the TLA+ field specification (TraceField.tla over PrimeField.tla), validated by TLC; programs cover all ordered pairs of boundary representations (incl. Montgomery-internal patterns), unreduced intermediate results, result-targeted products and seeded random programs. Design level: TLC enumerates the carry chains at 3-bit limbs (AlgGf255) and Apalache discharges the same statements at the real 64-bit limb width for all operands (apalache/Gf255Carry, Gf448Carry).", "TLA+ spec + TLC trace validation of recorded implementation calls; TLC and Apalache (SMT) on limb-level TLA+ models"),
  "C03": ("TLC validates every add/sub/neg/double/xdouble/mul_small call recorded on 8 group types (edwards25519, edwards448, P-256, secp256k1, ristretto255, decaf448, jq255e, jq255s) against the affine group law written from the curve equations (Curves.tla, Quotients.tla): low-order and special points against themselves, their opposites, the neutral and generic points, plus seeded random programs re-using results.", TV),
- "C04": ("TLC recomputes [k]P by double-and-add on the affine law for every recorded mul/mulgen call: boundary scalars, signed-digit carry patterns, endomorphism-split word-boundary scalars derived from the lattice of the split, and single-digit scalars selecting each precomputed table entry in isolation.", TV),
+ "C04": ("TLC recomputes [k]P by double-and-add on the affine law for every recorded mul/mulgen call: boundary scalars, signed-digit carry patterns, endomorphism-split word-boundary scalars derived from the lattice of the split, and single-digit scalars selecting each precomputed table entry in isolation; design models of the signed-window recoding and of the rounded division behind the endomorphism splits are checked exhaustively at toy size (AlgRecode, AlgDivRound).", TV),
  "C06": ("TLC validates decode acceptance and value, encode, equals, isneutral and the byte-to-group maps against RFC 8032 / SEC1 / RFC 9496 / documented jq255 codecs in TLA+ on systematically malformed candidate strings of all lengths, and on representatives of the same element reached through different computations.", TV),
  "C07": ("TLC recomputes every verify_raw/ctx/ph verdict with the strict cofactored RFC 8032 predicate (EdDSA.tla, with SHA-512 / SHAKE256 in TLA+) and every signature / public key byte-exactly, on honest and adversarially constructed inputs (torsion components in A and R, S >= L, non-canonical and small-order encodings).", TV),
  "C08": ("TLC recomputes every ECDSA verification verdict (ECDSA.tla) and every signature byte-exactly (RFC 6979 HMAC-SHA-256 nonce with extra input for P-256, documented SHA-512 nonce for secp256k1) over key, hash-length, extra-randomness and signature range/length lattices.", TV),
  "C14": ("TLC recomputes X25519 / X448 (RFC 7748 ladder in XDH.tla) for low-order, twist, non-canonical and random u-coordinates and boundary scalars, and the base-point variants against the same specification value.", TV),
- "C09": ("TLC recomputes every jq255e / jq255s / GLS254 signature byte-exactly (documented BLAKE2s nonce and challenge), every verification verdict, private/public key decoding, and every ECDH status and success key from JqSchnorr.tla over the affine group laws of Quotients.tla / Gls254.tla; failure keys are only required to differ under different local secrets.", TV),
- "C13": ("TLC validates truncated verification: an exhaustive sweep over every value of the truncated top bits of S (hence every entry of the search table, both directions) using the A = neutral construction with the specification tracking [S]B incrementally, plus honest Ed25519 / P-256 cases over all rm and invalid prefixes checked for soundness against EdDSA.tla / ECDSA.tla.", "TLA+ spec with an incremental witness state + TLC trace validation"),
- "C10": ("TLC validates u*P+v*G, the 128-bit multiplier variant and the verification helpers (relationally: [c](sG - R - kQ) = 0) on boundary multipliers and fraction-shaped challenges; panics are rejected as non-transitions.", TV),
+ "C09": ("TLC recomputes every jq255e / jq255s / GLS254 signature byte-exactly (documented BLAKE2s nonce and challenge), every verification verdict, private/public key decoding, and every ECDH status and success key from JqSchnorr.tla over the affine group laws of Quotients.tla / Gls254.tla; failure keys are required to differ under different local secrets and not to be derivable from public values by the scheme's own derivation.", TV),
+ "C13": ("TLC validates truncated verification: an exhaustive sweep over every value of the truncated top bits of S (hence every entry of the search table, both directions) using the A = neutral construction with the specification tracking [S]B incrementally, plus honest Ed25519 / P-256 cases over all rm and invalid prefixes checked for soundness against EdDSA.tla / ECDSA.tla, P-256 signatures valid by construction in limb-boundary and short-form classes, and the x-only sequences (to_x_affine_diff, x_sequence_vartime) against the affine law; the case analysis and batching of x_sequence_vartime is model-checked on a toy curve (AlgXSeq).", "TLA+ spec with an incremental witness state + TLC trace validation; TLC model checking of the x-only sequence algorithm"),
+ "C10": ("TLC validates u*P+v*G, the 128-bit multiplier variant and the verification helpers (relationally: [c](sG - R - kQ) = 0) on boundary multipliers (incl. every lattice-derived boundary scalar of the endomorphism curves and its opposite), fraction-shaped challenges and challenges whose shortest lattice vector has its large coordinate at the top of the reachable range; panics are rejected as non-transitions; the NAF recoding is model-checked exhaustively at toy size (AlgNaf).", TV),
  "C05": ("TLC validates every decode_ct/decode32/decode/decode_reduce/encode call recorded over all lengths 0..3*ENC_LEN+1 and boundary contents against the codec operators of PrimeField.tla.", TV),
- "C11": ("TLC checks the relational split contract (k*c1'=c0' mod q with the documented correction, (0,1) for zero) on every recorded split_vartime call, including fraction-shaped and unbalanced scalars; non-termination is observed by a per-call watchdog and rejected as a non-transition.", "TLA+ relational spec + TLC trace validation; watchdog for termination"),
- "C12": ("TLC validates division, inversion, batch inversion, Legendre symbol and square roots (relationally) of every recorded call against PrimeField.tla on GCD-pathological divisors (2^s, q-2^s, t*2^s sweep, shared top bits) in all representations.", TV),
+ "C11": ("TLC checks the relational split contract (k*c1'=c0' mod q with the documented correction, (0,1) for zero) on every recorded split_vartime call, including fraction-shaped and unbalanced scalars, user-defined moduli of the generic types, the public GLS254 endomorphism split (k = k0 + k1*mu, bounds, oddness) and every operation of the public Zu128/Zu256/Zu384 helper integers (TraceZz.tla); non-termination is observed by a per-call watchdog and rejected as a non-transition; the two-loop lattice reduction is model-checked (AlgLagrange: contract, bounded steps, termination).", "TLA+ relational spec + TLC trace validation; TLC model checking of the reduction loops; watchdog for termination"),
+ "C12": ("TLC validates division, inversion, batch inversion, Legendre symbol and square roots (relationally) of every recorded call against PrimeField.tla on GCD-pathological divisors (2^s, q-2^s, t*2^s sweep, shared top bits) in all representations, slices spanning the internal batch size of batch inversion, and user-defined moduli of special shapes; Montgomery's trick with zeros is model-checked exhaustively at toy size (AlgBatchInv).", TV),
  "C15": ("TLC enumerates FROST sessions (thresholds, arrival orders with duplicates and surplus signers, corruption sites) from FrostGen.tla, checking the coordinator's selection contract on the model; sampled sessions are replayed into the five ciphersuites and TLC recomputes every decision and value from the RFC 9591 specification in Frost.tla (VSS consistency, commitments, signature shares, share verification, aggregation, group / RFC 8032 verification, strict wire decoders).", "TLC-generated behaviours replayed into the code + TLC trace validation against a TLA+ transcription of RFC 9591"),
- "C16": ("TLC model-checks the key-counter design (LmsGen.tla: no leaf reuse, strictly increasing indices, state advanced before a signature is visible, termination) over every interleaving of sign / RNG-failure / exhausted-sign for a small tree, enumerates the histories for the real height with an RNG failure injected at every call position, and validates the replayed traces (leaf index of every signature, state after every call, verification accepts exactly the issued pairs; selected signatures recomputed with RFC 8554 in TLC).", "TLC model checking of the key state machine + TLC-generated histories replayed into the code + TLC trace validation"),
+ "C16": ("TLC model-checks the key-counter design (LmsGen.tla: no leaf reuse, strictly increasing indices, state advanced before a signature is visible, termination) over every interleaving of sign / RNG-failure / exhausted-sign for a small tree, enumerates the histories for the real height with an RNG failure injected at every call position, and validates the replayed traces (leaf index of every signature, state after every call, verification accepts exactly the issued pairs; selected signatures recomputed with RFC 8554 in TLC); the inductive invariant of the counter is discharged by Apalache for any number of leaves, calls and failures (apalache/LmsInd).", "TLC model checking of the key state machine + Apalache inductive invariant + TLC-generated histories replayed into the code + TLC trace validation"),
  "C18": ("The field, group, hash and signature programs are re-executed under each non-default build configuration that compiles on this host and validated by TLC against the same TLA+ specification, so that every specified output equals one value whatever the backend.", TV),
  "C17": ("TLC enumerates every allowed call history (depth 3, 2 instances, symbolic length classes) of the HashGen.tla API model; the histories are replayed into the real hash types and TLC recomputes every digest / SHAKE chunk from the abstract message with SHA2.tla / Keccak.tla / Blake2s.tla (TraceHash.tla).", "TLC-generated behaviours replayed into the code + TLC trace validation against TLA+ hash specifications"),
- "C20": ("TLC validates set_cond/select/cswap/equals/iszero events between registers in different representations against the Select semantics in TraceField.tla.", TV),
+ "C20": ("TLC validates set_cond/select/cswap/equals/iszero events between registers in different representations against the Select semantics in TraceField.tla, every representation k*q of zero with every single bit flipped (also in the internal Montgomery representation), other representatives of the same quotient-group element, and the constant-time table lookups incl. out-of-range indices.", TV),
 }
 NA_C02 = ("Constant-time behaviour is a property of branch targets and addresses in optimised machine code as a function of "
           "secret data; a TLA+ specification and API-level traces cannot observe it (needs binary-level taint tracking, a "
